@@ -1,5 +1,6 @@
 import Zlink.Proofs.Server
 import Zlink.Proofs.ServerQuiet
+import Zlink.Proofs.ServerOracle
 /-! # C08 — Server answers each call once, in order, on its own connection; oneway gets none
 
 Model: `Zlink/Model/Server.lean` (`server/mod.rs`, `server/select_all.rs`) over the poll-level receive
@@ -69,6 +70,20 @@ theorem C08_quiescent (C : Consts) (hstep : 0 < C.step) (sizes : Nat → Nat)
     rw [hk, ← hlen] at this
     simpa using this
 
+/-- **The model satisfies the oracle that judges the implementation.** In EVERY reachable idle state, every well-behaved
+    client - being read with all its bytes arrived, or parked with an open reply stream - has been sent exactly
+    `SpecSrv.refOutCredit granted descs`: the sequential per-connection reference for its calls (one reply or error per call,
+    nothing for a oneway call, a streaming call's items in order), cut where its reply streams were not allowed to hand over
+    more (`granted` = the results made available by `Ev.produce`). `SpecSrv.connOK` - evaluated by the driver on what the real
+    `Server::run` wrote to each client - demands exactly this of a complete, well-behaved connection. -/
+theorem C08_model_satisfies_oracle (C : Consts) (hstep : 0 < C.step) (sizes : Nat → Nat)
+    (evs : List Srv.Ev) (hev : Srv.EvsOK C sizes evs init) (hacct : Srv.EvsAcct evs)
+    (hidle : iter C sizes (runEvs C sizes evs init) = none) :
+    let s := runEvs C sizes evs init
+    (∀ c ∈ s.conns, c.good = true → c.fut = [] → c.out = SpecSrv.refOutCredit c.granted c.descs) ∧
+    (∀ p ∈ s.streams, p.2.good = true → p.2.out = SpecSrv.refOutCredit p.2.granted p.2.descs) :=
+  idle_output_is_reference C hstep sizes evs hev hacct hidle
+
 /-- A call flagged oneway gets nothing, whatever the service answers. -/
 theorem C08_oneway_silent (v : Nat) : answer (.echo v true) = [] ∧ answer (.fail true) = [] := ⟨rfl, rfl⟩
 
@@ -84,7 +99,7 @@ theorem C08_in_order (ds : List Desc) (d : Desc) : expectedOut (ds ++ [d]) = exp
 namespace Example
 def C : Consts := { step := 8, max := 1000 }
 def conn (id : Nat) (frames : List (List Byte)) (descs : List Desc) : Conn :=
-  { id := id, rx := Rx.init C, net := net0, calls := descs, out := [], wfail := none, nwrites := 0, credit := 1000,
+  { id := id, rx := Rx.init C, net := net0, calls := descs, out := [], wfail := none, nwrites := 0, credit := 1000, granted := 1000,
     good := true, frames := frames, descs := descs, fut := enc frames, k := 0 }
 def c0 : Conn := conn 0 [[1, 2], [3]] [.echo 7 false, .echo 8 true]
 def c1 : Conn := conn 1 [[9]] [.sub 2 0]
@@ -93,5 +108,7 @@ example : (runEvs C (fun _ => 100) evs Srv.init).all.map (fun c => (c.id, c.out)
     [(0, [.R 7]), (1, [.I 0 (some true), .I 1 (some false)])] := by decide
 /-- the hypothesis of `C08_quiescent` is met by this run: after the last poll the server is idle -/
 example : iter C (fun _ => 100) (runEvs C (fun _ => 100) evs Srv.init) = none := by decide
+/-- … and the accounting hypothesis of `C08_model_satisfies_oracle` -/
+example : Srv.EvsAcct evs := by simp [Srv.EvsAcct, Srv.EvAcct, evs, c0, c1, conn]
 end Example
 end C08
